@@ -21,7 +21,7 @@ def templates(ctx):
     T = []
     n = 3 if ctx.quick() else 4
     # taxonomy: n defs, each with 0..2 `is` entries (symbolic bytes)
-    for shape in ([(0, 1, 1), (0, 1, 2), (0, 2, 1), (1, 1, 1)] if ctx.quick() else [(0, 1, 1, 1), (0, 1, 2, 1), (0, 1, 1, 2), (0, 2, 2, 1), (1, 1, 2, 2), (0, 1, 2, 2)]):
+    for shape in ([(0, 1, 1), (0, 1, 2), (0, 2, 1), (1, 1, 1)] if ctx.quick() else [(0, 1, 1), (0, 1, 2), (0, 2, 1), (1, 1, 1), (0, 2, 2), (0, 1, 1, 1), (0, 1, 2, 1)]):
         T.append({'name': 'tax-' + ''.join(map(str, shape)), 'mode': 'tax', 'is': list(shape)})
     # reflection: fixed taxonomy with a conjunct, record over defined / undefined tags as marker or non-marker
     T.append({'name': 'reflect', 'mode': 'reflect'})
@@ -187,9 +187,9 @@ def reference(graph, symb, base, rec):
 def run(ctx):
     prog = load.program(ctx.repo, ctx.cache)
     T = templates(ctx)
-    ctx.cov['bounds'] = {'defs': '3 (quick) / 4 (thorough) defs with names = one symbolic byte a..f, 0-2 symbolic `is` entries each (supertype name < own name: acyclic)',
+    ctx.cov['bounds'] = {'defs': '3 (quick) / 3-4 (thorough) defs with names = one symbolic byte a..f, 0-2 symbolic `is` entries each (supertype name < own name: acyclic)',
                          'queries': 'symbolic symbol and base symbol a..f', 'reflection': 'fixed 6-def taxonomy with a conjunct a-b; record over tags a,b,c,d each absent / marker / Str'}
-    S = sym.explore_templates(ctx, __import__('props.C13', fromlist=['x']), T, prog, split_depth=6, max_steps=400000, budget_s=420 if ctx.quick() else 2400)
+    S = sym.explore_templates(ctx, __import__('props.C13', fromlist=['x']), T, prog, split_depth=6, max_steps=400000, budget_s=600 if ctx.quick() else 4200)
     sym.native_check(ctx, S)
     ctx.cov['path_kinds'] = dict(collections.Counter(s['kind'] for s in S))
     unsup = collections.Counter(); mism = 0; validated = 0
